@@ -75,7 +75,9 @@ def check_case(case):
             labels.append('sequence-single')
     except Refused as ex:
         devs = []
-        if parts is not None and len(parts) == 1 and req_mode != 'INVALID':
+        # (with eci=True and an explicit encoding the refusal may be "no ECI assignment number known for
+        # this encoding", which the documentation allows)
+        if parts is not None and len(parts) == 1 and req_mode != 'INVALID' and not (kw.get('eci') and kw.get('encoding')):
             b = parts[0][0]
             mode = req_mode or auto_mode(b)
             if b and representable(mode, b) and fits_somewhere(mode, len(b), kw, fn):
@@ -208,7 +210,10 @@ def text_cases(draw):
         kw['error'] = draw(st.sampled_from(['L', 'M', 'Q']))
     kw['mask'] = draw(st.integers(0, 3))
     if draw(st.integers(0, 3)) == 0:
-        kw['encoding'] = draw(st.sampled_from(['utf-8', 'shift_jis', 'gb2312', 'iso-8859-15', 'utf-16', 'big5', 'gbk', 'ascii']))
+        kw['encoding'] = draw(st.sampled_from(['utf-8', 'shift_jis', 'gb2312', 'iso-8859-15', 'utf-16', 'big5', 'gbk', 'ascii', 'iso-8859-1']))
+    if fn in ('make', 'make_qr') and draw(st.integers(0, 3)) == 0 and kw.get('micro') is not True \
+            and str(kw.get('version', '')).upper() not in R.MICRO:
+        kw['eci'] = True
     return {'fn': fn, 'content': enc_content(content), 'kw': kw}
 
 
@@ -226,5 +231,5 @@ def phases(tier, seed):
              note='requested mode x one- and two-byte contents'),
         Enum('length-3-4-representative-bytes', lambda: longer_scope(tier), exhaustive=True,
              note='all contents of length 3 and 4 over representative byte values (both sides of every class boundary)'),
-        Search('texts', text_cases(), n),
+        Search('texts', st.one_of(text_cases(), text_cases(), gens.lookalike_case()), n),
     ]
